@@ -24,8 +24,45 @@ fn pr_ast_line(a: &Ast) -> String {
     out.join(" ")
 }
 
+// The rendered message as C12 specifies it: "<reason> (line L, column C)\n", then the expression with a caret line
+// (C spaces and a '^') placed right after line L; when line L has no terminating newline one is added first.
+fn render_spec(e: &JmespathError) -> String {
+    let mut out = format!("{} (line {}, column {})\n", e.reason, e.line, e.column);
+    let caret = format!("{}^\n", " ".repeat(e.column));
+    let mut placed = false;
+    let mut ended = 0usize;
+    for piece in e.expression.split_inclusive('\n') {
+        out.push_str(piece);
+        if piece.ends_with('\n') {
+            ended += 1;
+            if ended == e.line + 1 && !placed {
+                placed = true;
+                out.push_str(&caret);
+            }
+        }
+    }
+    if !placed {
+        out.push('\n');
+        out.push_str(&caret);
+    }
+    out
+}
+
 // `stage_parse`: the error came out of compile (true) or out of search (false).
 fn pr_err(e: &JmespathError, stage_parse: bool) -> String {
+    let r = pr_err_core(e, stage_parse);
+    let prefix_ok = match &e.reason {
+        ErrorReason::Parse(_) => e.to_string().starts_with("Parse error: "),
+        ErrorReason::Runtime(_) => e.to_string().starts_with("Runtime error: "),
+    };
+    if e.to_string() == render_spec(e) && prefix_ok {
+        format!("{} RENDER ok", r)
+    } else {
+        format!("{} RENDER bad", r)
+    }
+}
+
+fn pr_err_core(e: &JmespathError, stage_parse: bool) -> String {
     match &e.reason {
         ErrorReason::Parse(_) => {
             if stage_parse {
